@@ -57,8 +57,12 @@ def one(ctx: Ctx, cs, pname, over, core=True):
         return
     ctx_of_line = {ln: c for ln, c in full_ctx}   # 1-based line number of the full export -> contexts
     nonkern_sig = 'nonkern_signature' in doc.tags
-    for a in range(1, M + 1):
-        for b in range(a, M + 1):
+    import random
+    prng = random.Random(cs ^ 0xC07)
+    if M > 14:
+        ctx.cls('many_measures (ranges sampled)')
+    for a, b in MC.sample_pairs(M, prng, limit=45):
+        if True:
             ctx.ev()
             ctx.mon('excerpts')
             out, err = kpx.dumps(d, from_measure=a, to_measure=b, **kw)
